@@ -15,6 +15,8 @@ def opOfName : String → Option Op
   | "copysign" => some .copysign | "fdim" => some .fdim | "fmin" => some .fmin | "fmax" => some .fmax
   | "ceil" => some .ceil | "floor" => some .floor | "trunc" => some .trunc | "roundint" => some .roundint
   | "nearbyint" => some .nearbyint | "round" => some .round | "round_exact" => some .roundExact
+  | "cbrt" => some .cbrt | "hypot" => some .hypot | "mod" => some .mod | "fmod" => some .fmod
+  | "remainder" => some .remainder | "pow" => some .pow | "round_at" => some .roundAt | "cast" => some .cast
   | _ => none
 
 def showNV : Except Err NV → String
@@ -25,6 +27,17 @@ def showNV : Except Err NV → String
     match NV.ofRat n d with
     | .fv v => s!"ok {canonFV v} # frac {n}/{d}"
     | .q n d => s!"ok frac {n}/{d} #"
+
+/-- value + flags of an operation: `inexact`/`overflow` in the verdict part, `invalid`/`divzero` and the
+raw encoding informational -/
+def showNVF : Except Err (NV × Flags) → String
+  | .error e => s!"err {errName e}"
+  | .ok (.fv v, fl) =>
+    s!"ok {canonFV v} ix={b01 fl.inexact} ov={b01 fl.overflow} # raw={rawFV v} inv={b01 fl.invalid} dz={b01 fl.divzero}"
+  | .ok (.q n d, _) =>
+    match NV.ofRat n d with
+    | .fv v => s!"ok {canonFV v} ix=0 ov=0 # frac {n}/{d}"
+    | .q n d => s!"ok frac {n}/{d} ix=0 ov=0 #"
 
 /-- number-layer operations; returns `none` if the op is not handled here -/
 def handleNum (op : String) : Option (P String) :=
@@ -51,6 +64,17 @@ def handleNum (op : String) : Option (P String) :=
       match opOfName name with
       | none => pure "bad-op"
       | some op => pure (showNV (opEval C op args))
+  | "opf" => some do   -- opf <name> <ctx> <operand>* : like `op`, with flags
+      let name ← tok
+      let C ← pCtx
+      let rest ← get
+      let mut args : List NV := []
+      for _ in rest do
+        let o ← pOperand
+        args := args ++ [operandNV o]
+      match opOfName name with
+      | none => pure "bad-op"
+      | some op => pure (showNVF (opEvalFl C op args))
   | _ => none
 
 end Fpy.Drv
